@@ -332,3 +332,25 @@ def split(stream, start=0):
       return Framing(msgs, off, "partial-body")
     msgs.append((off, length, t, xid, ver))
     off += length
+
+
+def unit(t, k=0):
+  """Approximate number of bytes one unit of the size parameter adds."""
+  if t == FEATURES_REPLY:
+    return 48
+  if t == FLOW_MOD:
+    return 10
+  if t == QUEUE_GET_CONFIG_REPLY:
+    return 24
+  if t == STATS_REPLY:
+    return {OFPST_FLOW: 98, OFPST_TABLE: 64, OFPST_PORT: 104, OFPST_QUEUE: 32}.get(k, 1)
+  return 1
+
+
+def n_for_size(t, k, f, target):
+  """Size parameter that brings the message close to `target` bytes (clamped to what fits)."""
+  if not uses_n(t, k):
+    return 0
+  if t == STATS_REPLY and k == OFPST_AGGREGATE:
+    return target
+  return max(0, min(max_n(t, k, f), target // unit(t, k)))
